@@ -8,8 +8,8 @@
 package main
 
 import (
-	"os"
 	"fmt"
+	"os"
 	"strings"
 	"time"
 
@@ -25,6 +25,7 @@ import (
 )
 
 type scen struct {
+	eager   bool // merge plan scaled down: any two small file segments are merged
 	pre     harness.BatchSpec
 	clients [][]harness.BatchSpec
 	reads   int
@@ -43,6 +44,9 @@ var scens = map[string]scen{
 		clients: [][]harness.BatchSpec{{{I("a", "1")}}, {{D("a")}}, {{U("a", "3")}}}, reads: 1},
 	"2x2": {pre: nil,
 		clients: [][]harness.BatchSpec{{{U("a", "1")}, {D("a")}}, {{U("a", "2")}, {U("b", "3")}}}, reads: 2},
+	// eager merging, a two-document segment without deletions: a client's delete can land inside the merge
+	"lm": {eager: true, pre: harness.BatchSpec{I("a", "0"), I("b", "0")},
+		clients: [][]harness.BatchSpec{{{I("c", "1")}, {D("a")}}, {{I("e", "1")}, {U("c", "2")}}}, reads: 1},
 	"3c": {pre: harness.BatchSpec{I("a", "0")},
 		clients: [][]harness.BatchSpec{{{U("a", "1")}}, {{U("a", "2")}}, {{D("a"), I("b", "1")}}}, reads: 1},
 }
@@ -81,7 +85,7 @@ func run(opts verifmc.Options, param string) (*verifmc.Sched, *explore.Result) {
 	var fail string
 	dir := crashfs.New()
 	s := verifmc.Run(opts, func() {
-		cfg := harness.Config(dir, harness.Opts{Unsafe: unsafe})
+		cfg := harness.Config(dir, harness.Opts{Unsafe: unsafe, EagerMerge: sc.eager})
 		w, err := bluge.OpenWriter(cfg)
 		if err != nil {
 			verifmc.Fail("open: " + err.Error())
@@ -220,7 +224,7 @@ func main() {
 		"storage is the crashfs model of FileSystemDirectory (bound to the real directory by C13 and the C02/C03 conformance replay)",
 	}
 	budget := c.PickD(150*time.Second, 20*time.Minute)
-	names := []string{"uu", "ud", "id", "2x2", "3c"}
+	names := []string{"uu", "ud", "id", "lm", "2x2", "3c"}
 	if os.Getenv("VERIF_ONLY") != "" {
 		names = strings.Split(os.Getenv("VERIF_ONLY"), ",")
 	}
@@ -234,7 +238,7 @@ func main() {
 				per = 2 * time.Second
 			}
 			bound := 2
-			if !c.Thorough() && ((mode == "unsafe" && n == "2x2") || n == "3c") {
+			if !c.Thorough() && ((mode == "unsafe" && n == "2x2") || n == "3c" || n == "lm") {
 				bound = 1 // quick tier: the two largest scenarios are explored to d<=1 in unsafe mode
 			}
 			if c.Thorough() {
